@@ -1150,6 +1150,7 @@ func main() {
 	all["regexes"] = pats
 	all["dispatch"] = genDispatch()
 	all["facts"] = genConstsFacts()
+	all["templates"] = genTemplates()
 	shp := map[string]string{}
 	for _, s := range genShapes(filepath.Join(filepath.Dir(os.Args[3]), "shapes")) {
 		shp[s.Key] = s.Digest
